@@ -2,7 +2,7 @@
 //! concurrent compilations on other threads, whatever ran earlier in the process.
 
 use crate::exec::*;
-use vcommon::pool::{draw_item, sibling_of, twin_with_other_format};
+use vcommon::pool::{draw_item, lookup_storm, sibling_of, twin_with_other_format};
 use serde::{Deserialize, Serialize};
 use serde_json::{json, Value as Json};
 use std::cell::RefCell;
@@ -174,8 +174,14 @@ pub fn draw_plan(rng: &mut Rng, index: u64, tier: Tier) -> ExecPlan {
         *rng.pick(&[1usize, 2, 2, 3, 3, 4])
     };
     let long = index % 89 == 88;
+    // storm stratum: every task hammers the process-wide lookup tables with its own keys
+    let storm = !big && !long && index % 7 == 3;
     let mut tasks = vec![];
     for _ in 0..ntasks {
+        if storm {
+            tasks.push((0..1 + rng.usize(3)).map(|_| lookup_storm(rng)).collect::<Vec<Item>>());
+            continue;
+        }
         let h = if long {
             if tier == Tier::Thorough { 50 } else { 20 }
         } else {
